@@ -176,6 +176,117 @@ for i, P in ((I(8, 1), 'u8'), (I(16, 1), 'u16'), (I(32, 1), 'u32'), (I(64, 1), '
           tier='quick' if i.tag in ('d8x1', 'd64x1') else 'thorough', inst=i.label, funcs=f'From<{P}> for BInt of equal width', bound=f'all {P} values', core=False))
 
 
+# ---------------------------------------------------------------- C15
+SL_Q = [I(8, 1), I(8, 3), I(16, 2), I(32, 1), I(64, 1)]
+SL_T = [I(8, 2), I(16, 1), I(16, 3), I(32, 2), I(64, 2), I(32, 3)]
+for tier, insts in (('quick', SL_Q), ('thorough', SL_T)):
+    for i in insts:
+        L = 2 * i.bytes + 2
+        for sg, T in (('u', i.U), ('i', i.I)):
+            for e in ('be', 'le'):
+                add(H('C15', f"c15_{e}_slice_{sg}_{i.tag}", 'c15_slice', f"{L + 2}, {T}, {i.digit}, {i.n}, {L}, {e}", tier=tier, inst=i.label,
+                      funcs=f"{'BUint' if sg == 'u' else 'BInt'}::from_{e}_slice", cap=900,
+                      bound=f'all byte buffers, slice length 0..={L} (2*BYTES+2); unwind {L + 2}'))
+both('C15', 'c15_endian', LIN_Q, LIN_T, group='to_be/from_be/to_le/from_le', bound='all values, symbolic byte index')
+
+
+# ---------------------------------------------------------------- C14
+FL_Q = [I(8, 1), I(8, 3), I(16, 2), I(32, 2), I(64, 1), I(64, 2)]
+FL_T = [I(8, 2), I(8, 5), I(8, 8), I(16, 1), I(16, 3), I(16, 5), I(32, 1), I(32, 3), I(64, 3)]
+both('C14', 'c14_from_float', FL_Q + [I(64, 3)], [i for i in FL_T if i.tag != 'd64x3'] + [I(8, 17), I(32, 5), I(64, 5)],
+     group='CastFrom<f32/f64>', bound='all 2^32 f32 and 2^64 f64 bit patterns, symbolic bit index', cap=600)
+both('C14', 'c14_to_float', FL_Q, [i for i in FL_T if i.bits <= 128], group='as f32 / as f64 (width <= 128: vs primitive as)', bound='all values', cap=600)
+for i, tier in ((I(64, 3), 'quick'), (I(64, 5), 'thorough'), (I(64, 17), 'thorough')):
+    add(H('C14', f"c14_to_float_wide_{i.tag}", 'c14_to_float_wide', f"{i.n + 2}, {i.U}, {i.I}, {i.n}", tier=tier, inst=i.label, cap=900,
+          funcs='BUint/BInt as f32 / as f64, widths above 128 bits (round-to-nearest-even spec, infinity boundary)',
+          bound=f'all values with more than 64 significant bits; unwind {i.n + 2}'))
+
+
+# ---------------------------------------------------------------- C19
+NT_Q = [I(8, 1), I(8, 3), I(16, 1), I(32, 2), I(64, 1), I(64, 2)]
+NT_T = [I(8, 2), I(16, 3), I(32, 1), I(64, 3), I(8, 17)]
+both('C19', 'c19_from_prim', NT_Q, NT_T, unwind=lambda i: max(i.n, 16) + 2, group='FromPrimitive::from_{u8..u128,i8..i128,usize,isize}',
+     bound='all source values, symbolic bit index', cap=600)
+both('C19', 'c19_from_float', NT_Q, NT_T, group='FromPrimitive::from_f32/from_f64',
+     bound='all 2^32 f32 and 2^64 f64 bit patterns, symbolic bit index', cap=600)
+both('C19', 'c19_to_prim', NT_Q, NT_T, unwind=lambda i: max(i.n, 16) + 2, group='ToPrimitive::to_*, AsPrimitive::as_',
+     bound='all values, symbolic bit index', cap=600)
+
+
+# ---------------------------------------------------------------- C02
+DD = {'u8': 'u16', 'u16': 'u32', 'u32': 'u64', 'u64': 'u128'}
+for i, tier, cap in ((I(8, 1), 'quick', 300), (I(8, 2), 'quick', 900), (I(16, 1), 'thorough', 1800)):
+    for part in ('ov', 'wide', 'proj'):
+        add(H('C02', f"c02_x_u_{part}_{i.tag}", 'c02_x_u', f"{i.n + 2}, {i.U}, {i.digit}, {i.n}, {part}", tier=tier, cap=cap, inst=i.label,
+              funcs={'ov': 'BUint overflowing_mul', 'wide': 'BUint widening_mul, carrying_mul', 'proj': 'BUint checked/wrapping/saturating/strict/unchecked_mul vs overflowing_mul'}[part],
+              bound=f'all operand pairs (exact multiplier, {i.bits} bits); unwind {i.n + 2}'))
+    for part in ('ov', 'proj'):
+        add(H('C02', f"c02_x_i_{part}_{i.tag}", 'c02_x_i', f"{i.n + 2}, {i.I}, {i.digit}, {i.n}, {part}", tier=tier, cap=cap, inst=i.label,
+              funcs={'ov': 'BInt overflowing_mul, saturating_mul', 'proj': 'BInt checked/wrapping/strict/unchecked_mul vs overflowing_mul'}[part],
+              bound=f'all operand pairs (exact multiplier, {i.bits} bits); unwind {i.n + 2}'))
+    add(H('C02', f"c02_strict_panic_{i.tag}", 'c02_strict_panic', f"{i.n + 2}, {i.U}, {i.I}, {i.digit}, {i.n}", tier=tier, cap=cap, inst=i.label, kind='panic',
+          funcs='strict_mul panics on overflow (BUint, BInt)', bound='all overflowing operand pairs'))
+UF_Q = [I(8, 3), I(64, 2)]
+UF_T = [I(8, 2), I(8, 4), I(16, 2), I(16, 3), I(32, 2), I(32, 3), I(64, 3), I(64, 4)]
+for tier, insts in (('quick', UF_Q), ('thorough', UF_T)):
+    for i in insts:
+        for sg, T in (('u', i.U), ('i', i.I)):
+            add(H('C02', f"c02_{sg}_uf_{i.tag}", f'c02_{sg}_uf',
+                  f"{max(2 * i.n + 1, i.n * i.n) + 2}, {T}, {i.digit}, {i.n}, {2 * i.n}, {i.digit}, uf_carrying_mul_{i.digit}, uf_widening_mul_{i.digit}",
+                  tier=tier, cap=1200, inst=i.label, stub=True,
+                  funcs=('BUint overflowing_mul, widening_mul' if sg == 'u' else 'BInt overflowing/checked/saturating_mul') + ' with the digit product as an uninterpreted function',
+                  bound='all operand pairs, all interpretations of the digit product satisfying P<=(B-1)^2, P=0 iff a factor is 0, functional consistency + commutativity'))
+for i, tier in ((I(16, 2), 'quick'), (I(32, 2), 'quick'), (I(8, 3), 'thorough'), (I(8, 4), 'thorough'), (I(16, 3), 'thorough'), (I(64, 1), 'thorough')):
+    add(H('C02', f"c02_alpha_{i.tag}", 'c02_alpha', f"{i.n + 2}, {i.U}, {i.I}, {i.digit}, {i.n}", tier=tier, cap=1200, inst=i.label,
+          funcs='overflowing/widening/carrying_mul (BUint), overflowing/saturating_mul (BInt), exact arithmetic',
+          bound='every digit over the boundary alphabet {0,1,2,B/2-1,B/2,B/2+1,B-2,B-1}; exact u128 oracle'))
+for i in (I(8, 1), I(16, 1), I(32, 1), I(64, 1)):
+    add(H('C02', f"c02_kernel_{i.tag}", 'c02_kernel', f"3, {i.U}, {i.digit}, {DD[i.digit]}", inst=i.label, cap=900,
+          funcs='digit product kernel through N=1 widening_mul / carrying_mul / overflowing_mul', bound='all digit triples; double-width primitive product as oracle'))
+
+
+# ---------------------------------------------------------------- C03
+def _x(i, signed):
+    t = 'i' if signed else 'u'
+    return t + ('32' if i.bits <= 16 else '64' if i.bits <= 32 else '128')
+
+
+def c03_set(i, gen, tier, cap, path='all', signed=True, unsigned=True, tagx=''):
+    g = '' if gen == 'any' else '_alpha'
+    pth = '' if path == 'all' else '_' + path
+    bnd = ('all operand pairs' if gen == 'any' else 'every digit over the boundary alphabet {0,1,2,B/2-1,B/2,B/2+1,B-2,B-1}') + \
+          ({'all': '', 'small': ' with a one-digit divisor or dividend <= divisor', 'knuth': ' with a multi-digit divisor below the dividend (Knuth D)'}[path])
+    if unsigned:
+        add(H('C03', f"c03_u_main{g}{pth}_{i.tag}", 'c03_u_main', f"{i.n + 2}, {i.U}, {i.digit}, {i.n}, {gen}, {_x(i, False)}, {path}", tier=tier, cap=cap,
+              inst=i.label, funcs='BUint / and % (div_rem_unchecked, div_rem_digit, basecase_div_rem)', bound=bnd + '; postcondition n = q*d + r, r < d', core=(gen == 'any' and i.bits <= 8)))
+        add(H('C03', f"c03_u_proj{g}{pth}_{i.tag}", 'c03_u_proj', f"{i.n + 3}, {i.U}, {i.digit}, {i.n}, {gen}, {path}", tier=tier, cap=cap, inst=i.label,
+              funcs='BUint checked/wrapping/overflowing/saturating/strict div+rem (+euclid), div_floor, div_ceil, next_multiple_of, checked_next_multiple_of', bound=bnd, core=False))
+    if signed and path == 'all':
+        add(H('C03', f"c03_i_main{g}_{i.tag}", 'c03_i_main', f"{i.n + 2}, {i.I}, {i.digit}, {i.n}, {gen}, {_x(i, True)}", tier=tier, cap=cap, inst=i.label,
+              funcs='BInt / and % (sign handling around the unsigned algorithm)', bound=bnd + ' except MIN / -1; postcondition with the sign rule', core=(gen == 'any' and i.bits <= 8)))
+        add(H('C03', f"c03_i_proj{g}_{i.tag}", 'c03_i_proj', f"{i.n + 3}, {i.I}, {i.digit}, {i.n}, {gen}", tier=tier, cap=cap, inst=i.label,
+              funcs='BInt checked/wrapping/overflowing/saturating/strict div+rem (+euclid), div_floor, div_ceil, next_multiple_of, MIN / -1 projections', bound=bnd, core=False))
+
+
+c03_set(I(8, 1), 'any', 'quick', 600)
+c03_set(I(8, 2), 'any', 'quick', 900, path='small')
+c03_set(I(16, 1), 'any', 'quick', 900)
+c03_set(I(32, 1), 'any', 'thorough', 1800)
+c03_set(I(64, 1), 'any', 'thorough', 3600)
+c03_set(I(8, 3), 'any_alpha', 'quick', 1200)
+c03_set(I(8, 2), 'any', 'thorough', 2400, path='knuth')
+c03_set(I(8, 2), 'any', 'thorough', 2400, unsigned=False)
+for i in (I(8, 4), I(16, 2), I(16, 3), I(32, 2), I(64, 1)):
+    c03_set(i, 'any_alpha', 'thorough', 3600)
+for i, tier in ((I(64, 2), 'thorough'), (I(32, 4), 'thorough')):
+    add(H('C03', f"c03_w128_alpha_{i.tag}", 'c03_w128', f"{i.n + 2}, {i.U}, {i.I}, {i.digit}, {i.n}, any_alpha", tier=tier, cap=5400, mem_gb=24, core=False,
+          inst=i.label, funcs='BUint/BInt / and % at 128 bits', bound='every digit over the boundary alphabet; oracle = primitive u128/i128 division'))
+for tier, insts in (('quick', [I(8, 2), I(64, 2), I(16, 3)]), ('thorough', [I(8, 5), I(32, 3), I(64, 5)])):
+    for i in insts:
+        add(H('C03', f"c03_zero_div_{i.tag}", 'c03_zero_div', f"{i.n + 2}, {i.U}, {i.I}, {i.digit}, {i.n}", tier=tier, inst=i.label,
+              funcs='checked_div/rem/div_euclid/rem_euclid/next_multiple_of with a zero divisor', bound='all dividends'))
+
+
 def by_prop(p):
     return [h for h in REG if h.prop == p]
 
